@@ -403,6 +403,29 @@ fn stream_line() -> impl Strategy<Value = Vec<Vec<u8>>> {
                 s.render()
             }).collect()
         }),
+        // the shortest lines the grammar allows: a decodable message whose closing (or opening) fragment is a
+        // single character, with no sequence id and no channel, the checksum spelled with one digit when it
+        // can be - 18 or 19 bytes, shorter than any "plausible minimum" a front end might impose
+        2 => (any::<u32>(), proptest::collection::vec(any::<u8>(), 24), any::<bool>(), any::<bool>()).prop_map(|(m, n, short_first, one_digit)| {
+            let mut b: Vec<u8> = (0..21).map(|i| n[i % n.len()]).collect();
+            set_bits(&mut b, 0, 6, 1);
+            set_bits(&mut b, 8, 30, (m & 0x3fff_ffff) as u64);
+            let (chars, fill) = armor::armor_bytes(&b);
+            let cut = if short_first { 1 } else { chars.len() - 1 };
+            let mk = |k: u32, p: &[u8], fill: u32| {
+                let mut s = Spec::simple(2, k, None, b"", p, fill);
+                let body_xor = {
+                    let r = s.render();
+                    let star = r.iter().position(|c| *c == b'*').unwrap();
+                    r[1..star].iter().fold(0u8, |a, c| a ^ c)
+                };
+                if one_digit && body_xor < 16 {
+                    s.cks_digits = 1;
+                }
+                s.render()
+            };
+            vec![mk(1, &chars[..cut], 0), mk(2, &chars[cut..], fill as u32)]
+        }),
         // odd line endings
         1 => (any::<u32>(), proptest::collection::vec(any::<u8>(), 24), prop::sample::select(vec![&b"\r\r"[..], b" \r", b"\t", b"\r \r", b"\x0b"])).prop_map(|(m, n, end)| {
             let mut l = tagged_position(m & 0x3fff_ffff, &n);
